@@ -21,7 +21,7 @@ META = dict(
 def run(c):
     thorough = c.tier == "thorough"
     rng = c.rng
-    gen = mc_codec(c, 2 if thorough else 1, shards=9 if thorough else 3, liveness=False)
+    gen = mc_codec(c, 2 if thorough else 1, shards=9 if thorough else 3, liveness=False, deep=() if thorough else deep_messages(c, 8))
     drv = c.build_driver("codec")
     wants = [(g["m"], g["w"]) for g in gen if g["g"]]
     bym = {}
